@@ -221,8 +221,9 @@ fn client(id: usize, seed: u64, ops: usize, start: &std::sync::Barrier) {
                 );
             }
             6 => {
-                // unjudged SOFA-inclusive lookup
-                let s = s0 + r.below((s1 - s0) as u64) as i128;
+                // unjudged SOFA-inclusive lookup, in the SOFA span or in the ten years before it
+                // (where it finds nothing at all)
+                let s = s0 - 315_360_000 + r.below((s1 - s0 + 315_360_000) as u64) as i128;
                 let e = Epoch::from_duration(dur(s * NS), TimeScale::TAI);
                 let _ = e.leap_seconds(false);
             }
